@@ -9,6 +9,21 @@ sys.path.insert(0, "/verif")
 PY = "/venv/bin/python"
 
 CLAIMS = {
+    "C02": dict(
+        technique="coverage / no-silent-skip rules over the label-level closure built by the extractors and over the specification's rule dictionary; label-kind and pairing rules of engine K",
+        design="DESIGN.md sections 3 (engine G) and 4 (C02)",
+        text="Static analysis of the closure plumbing, not of the rule sets produced: every node of the proof tree records its actual "
+             "rule; every right-hand label without a left-hand side (and the root) gets an equivalence path from itself to the actual "
+             "parent standing for its representative, recorded step by step and cut short only at a class that already has a rule; "
+             "every (parent, children) pair becomes a rule (forward, two-way narrowed to its equivalence form, or stored the other way "
+             "round and reversed) or an error; the specification keys rules by their own class, wires every rule to get_rule after "
+             "folding, makes up an empty rule only for a class without a rule that is empty, and folds equivalence chains without "
+             "hiding a class of a real rule; stored strategies are re-applied to the class of their own key; the extractor is told the "
+             "raw root; rules inside one equivalence class are dropped and cycles connected before collapsing; the explanation path "
+             "follows recorded edges. Does NOT decide productivity (C03/C05/C11) nor that a re-applied strategy returns the same "
+             "children (C14).",
+        note="Trusted: ast, control model. Assumes strategies are deterministic.",
+    ),
     "C03": dict(
         technique="derived-table maintenance rules (pairing of every writer of the function with the corrections of the tables defined from it; affine sign/index checks)",
         design='DESIGN.md sections 3 (engine F) and 4 (C03)',
@@ -153,8 +168,6 @@ CLAIMS = {
 NOT_APPLICABLE = {
     "C01": "Equality of integer sequences produced by recurrences over unbounded families of universes and schedules: "
            "no sound static argument bounds those values; its structural necessary conditions are claimed under C04/C07/C09/C10.",
-    "C02": "Closure/productivity are facts about the rule set a particular search produced (reachability and a fixed point "
-           "over runtime data); no all-paths code shape decides them. The one structural hazard (extractor root) is decided under C13.",
 }
 
 
